@@ -294,6 +294,16 @@ func MakeUtxo(sctx *context.StateCtx, metaHandle *meta.Meta, cachesize, tmplockS
 	return utxoVM, nil
 }
 
+// ReloadUtxoTotal re-reads the total supply from storage: after an operation whose batch never
+// reached storage the figure kept in memory is ahead of it
+func (uv *UtxoVM) ReloadUtxoTotal() {
+	total := big.NewInt(0)
+	if utxoTotalBytes, err := uv.metaHandle.MetaTable.Get([]byte(UTXOTotalKey)); err == nil {
+		total.SetBytes(utxoTotalBytes)
+	}
+	uv.utxoTotal = total
+}
+
 func (uv *UtxoVM) UpdateUtxoTotal(delta *big.Int, batch kvdb.Batch, inc bool) {
 	if inc {
 		uv.utxoTotal = uv.utxoTotal.Add(uv.utxoTotal, delta)
